@@ -14,12 +14,12 @@ CHECK_DEADLOCK FALSE
 
 
 def strace_run(ctx, binp, kind, layout, goroutines, calls, out, extra=()):
-    d = os.path.join(ctx.scratch, "st-%s-%s-%d-%d" % (kind, layout, goroutines, len(extra)))
+    d = os.path.join(ctx.scratch, "st-%s-%s-%d-%d-%d" % (kind, layout, goroutines, calls, len(extra)))
     os.makedirs(d, exist_ok=True)
     tr = os.path.join(d, "strace.txt")
     ackr, ackw = os.pipe()
     so = open(os.path.join(d, "stdout.txt"), "wb")
-    cmd = ["strace", "-f", "-e", "trace=write,writev,pwrite64", "-s", "2000", "-o", tr, binp, "crashchild",
+    cmd = ["strace", "-f", "-e", "trace=write,writev,pwrite64", "-s", "9000", "-o", tr, binp, "crashchild",
            "--kind", kind, "--layout", layout, "--dir", d, "--goroutines", str(goroutines), "--calls", str(calls)] + list(extra)
     # the child writes acknowledgements to fd 3
     p = subprocess.Popen(cmd, stdout=so, stderr=subprocess.PIPE, pass_fds=(), preexec_fn=lambda: os.dup2(ackw, 3),
@@ -111,8 +111,15 @@ def run(ctx):
             ("rolling", "JSONLayout", 4, 4), ("console", "TextLayout", 2, 6), ("console", "JSONLayout", 1, 8)]
     if thorough:
         runs = runs + [(k, l, g, 30) for (k, l, g, _) in runs]
+    # contention: several goroutines hammer one file appender, so a call regularly finds the file busy
+    runs += [("file", "TextLayout", 4, 40), ("file", "JSONLayout", 4, 40)]
+    # line-length sweep on the console: 350 consecutive line lengths around 4096 (the size of a default bufio buffer)
+    sweep = [("console", "TextLayout", 1, 350), ("console", "JSONLayout", 1, 350)]
+    runs += sweep
     for i, (kind, layout, g, n) in enumerate(runs):
         extra = []
+        if (kind, layout, g, n) in sweep:
+            extra += ["--padsweep", "3850"]
         if i % 2 == 1:
             extra += ["--layoutat", "logger"]          # the logger formats, the appender's Write path is used
         if layout == "TextLayout" and i % 3 == 0:
